@@ -196,6 +196,35 @@ def run_c02(ctx):
                                               'T2': [{'form': 'ctx', 'o': 1, 'blocking': True, 'timeout': 100, 'hold': 0}]},
                                   'trace': True}, 2),
     ]
+    # stall sweep: in a few fixed programs, each thread in turn is descheduled for a while at its k-th source line,
+    # for every k (what a preemption-bounded search cannot do: the other threads are asleep at that moment, time
+    # has to pass)
+    sweep = []
+    bases = [
+        {'T1': [{'form': 'acquire', 'o': 1, 'blocking': True, 'timeout': -1, 'hold': 0.1}],
+         'T2': [{'form': 'acquire', 'o': 2, 'blocking': False, 'timeout': -2, 'hold': 0, 'delay': 0.01},
+                {'form': 'acquire', 'o': 2, 'blocking': False, 'timeout': -2, 'hold': 0, 'delay': 0.1}],
+         'T3': [{'form': 'acquire', 'o': 3, 'blocking': True, 'timeout': -1, 'hold': 0.3, 'delay': 0.05}]},
+        {'T1': [{'form': 'with', 'o': 1, 'hold': 0.1}, {'form': 'acquire', 'o': 1, 'blocking': True, 'timeout': 100, 'hold': 0.05, 'delay': 0.2}],
+         'T2': [{'form': 'acquire', 'o': 1, 'blocking': True, 'timeout': 50, 'hold': 0.1, 'delay': 0.02},
+                {'form': 'ctx', 'o': 2, 'blocking': True, 'timeout': -1, 'hold': 0.1, 'delay': 0.05}]},
+    ]
+    for bi, threads in enumerate(bases):
+        for thr in sorted(threads):
+            for k in range(1, 61 if ctx.tier == 'quick' else 141):
+                sweep.append({'mode': 'conc', 'cfg': {'reentrant': [False, False, False], 'deftimeout': [-1, -1, -1], 'poll': 50},
+                              'threads': threads, 'trace': True, 'stalls': {thr: [k, 0.25]},
+                              'strategy': {'kind': 'replay', 'prefix': []}})
+    ctx.run_and_validate(DRIVER, COMP, TRACE, sweep, 'stall_sweep', nontrivial=nontrivial_conc, known_match=known_match)
+    # a failed contender on a second object while the lock changes hands on the first one (whatever the failed
+    # attempt does with its descriptor must not touch the descriptor of the new holder)
+    small.append(('dfs_failed_contender_handover',
+                  {'mode': 'conc', 'cfg': {'reentrant': [False, False], 'deftimeout': [-1, -1], 'poll': 50},
+                   'threads': {'T1': [{'form': 'acquire', 'o': 1, 'blocking': True, 'timeout': -1, 'hold': 0.1}],
+                               'T2': [{'form': 'acquire', 'o': 2, 'blocking': False, 'timeout': -2, 'hold': 0, 'delay': 0.01},
+                                      {'form': 'acquire', 'o': 2, 'blocking': False, 'timeout': -2, 'hold': 0, 'delay': 0.1}],
+                               'T3': [{'form': 'acquire', 'o': 1, 'blocking': True, 'timeout': -1, 'hold': 0.3, 'delay': 0.05}]},
+                   'trace': True}, 2))
     for fam, sc, bound in small:
         ctx.explore_dfs(DRIVER, COMP, TRACE, sc, fam, bound=bound, budget=3000 if ctx.tier == 'quick' else 80000,
                         seed=ctx.seed, nontrivial=nontrivial_conc, known_match=known_match)
